@@ -111,6 +111,13 @@ def build_pool(seed: int, tier: str):
     add("fail-unknown-mnemonic", "*=0x008000\nxyz 5\n", "low", entries=("mem", "file_sfc"))
     add("fail-unsupported-mode", "*=0x008000\nnop #0\n", "low", entries=("mem", "cli"))
     add("fail-too-few-arguments", "*=0x008000\n.macro m_two(p_1, p_2) {\n.db p_1, p_2\n}\nm_two(1)\n", "low", entries=("mem",))
+    # a large assembly (thousands of tokens, statements and labels) followed by a probe that needs the interpreter's whole
+    # stack: process-wide limits and caches that a big program bumps must not change what a later program can do
+    big = "*=0x018000\n" + "".join(f"lb_big{i}:\n.db " + ", ".join(f"0x{(i * 7 + j) & 0xFF:02x}" for j in range(40)) + "\n" for i in range(150)) + ".dl lb_big149\n"
+    add("big-program", big, "low", entries=("mem", "file_ips"))
+    deep = "*=0x008000\n.macro m_rep(p_n) {\n.db p_n & 0xff\n.if p_n {\nm_rep(p_n - 1)\n}\n}\n"
+    add("deep-recursion-within-limits", deep + "m_rep(120)\nlb_done:\n.dl lb_done\n", "low", entries=("mem", "cli"), probes=["lb_done"])
+    add("deep-recursion-beyond-the-interpreter-limit", deep + "m_rep(400)\n", "low", entries=("mem", "file_ips"))
     add("empty-source", "", "low", entries=("mem", "file_ips"))
     add("comment-only-source", "; just a comment\n/* and a block */\n", "low", entries=("mem", "cli"))
     for j, job in enumerate(jobs):
@@ -154,7 +161,7 @@ def custom_units(tier, seed):
     return [{"shard": s, "n": n, "tier": tier} for s in range(16)]
 
 
-SENSITIVE = {"nested-include-user", "custom-map-same-addresses-a", "custom-map-same-addresses-b", "custom-map", "incbin-user", "incbin-other-content", "ips-user", "ips-other-content", "probe-low", "probe-high", "probe-unmapped-in-low", "uses-shared-undefined", "uses-macro-undefined", "uses-scope-undefined", "if-on-shared", "text-without-table", "table-user", "table-user-2",
+SENSITIVE = {"deep-recursion-within-limits", "deep-recursion-beyond-the-interpreter-limit", "nested-include-user", "custom-map-same-addresses-a", "custom-map-same-addresses-b", "custom-map", "incbin-user", "incbin-other-content", "ips-user", "ips-other-content", "probe-low", "probe-high", "probe-unmapped-in-low", "uses-shared-undefined", "uses-macro-undefined", "uses-scope-undefined", "if-on-shared", "text-without-table", "table-user", "table-user-2",
              "include-user", "include-other-content", "valid-generated"}
 
 
